@@ -924,6 +924,9 @@ def check_cases(ctx, cases, section, lit_attr=None):
     if bad and not block_has_cast(c.ss):
       if lit_attr is not None and lit_record(c): continue
       cause = cause_of(i)
+      # python-int + * << used only as a slice bound / bit index is tolerated by the strict checker (it cannot cause a width error),
+      # but its value still exceeds the max-width rule's width: same family as S3
+      if cause == 'none' and bad[0][0].startswith('bin:') and 'runtime int' in bad[0][1]: cause = 'S3'
       ctx.violation(f'C10:{cause}:missing-check',
                     f'accepted block: sub-expression {bad[0][0]}: {bad[0][1]} [cause {cause}] block:{c.body[-300:]}',
                     replay_of(c, {'cause': cause, 'all_rejecting_checks': rejecting[i], 'node': bad[0][0], 'detail': bad[0][1], 'inputs': bad[0][2]}))
@@ -1219,6 +1222,139 @@ def constant_cases(ctx, n, ninputs):
     ctx.sample({'section': 'constants', 'modelled_in_coq': c.modelled, 'block': c.body[-500:], 'checker': str(c.tc)[:200],
                 'simulation': str(c.runs[0][1])[:160] if c.tc[0] not in ('elab', 'syntax') else None})
 
+class LoopGen:
+  """nested for loops (2-3 deep) whose bodies slice / index signals with bounds built from the loop variables: the same variable on
+  both bounds (x[e : e+K], accepted as a K-bit part select), and the near misses the checker must reject — different loop variables,
+  different offsets or scales, a constant against a variable, non-Add upper bounds — on the read and on the written side."""
+  def __init__(s, rng):
+    s.rng = rng
+    D = s.D = Design()
+    s.ins = [D.add('InPort', w) for w in (16, 32, 8)]
+    s.outs = [D.add('OutPort', w) for w in (16, 32, 8)]
+    s.one = D.add('OutPort', 1)
+    s.small = {k: D.add('OutPort', k) for k in (1, 2, 3, 4)}
+    s.feats = set()
+    s.lbl = 0
+
+  def label(s):
+    s.lbl += 1; return s.lbl - 1
+
+  def affine(s, v, form=None):
+    """an int expression over loop variable v"""
+    r = s.rng
+    form = form or r.choice(['v', 'v', 'v', 'v+c', 'v*c', 'c+v', '(v+c)', 'v-c'])
+    V = ('loop', v)
+    if form == 'v': return V
+    c = r.choice([1, 2, 3])
+    if form == 'v+c' or form == '(v+c)': return ('bin', 'Add', V, ('lit', c))
+    if form == 'c+v': return ('bin', 'Add', ('lit', c), V)
+    if form == 'v*c': return ('bin', 'Mul', V, ('lit', r.choice([2, 2, 4])))
+    return ('bin', 'Sub', V, ('lit', 1))
+
+  def bounds(s, vars_):
+    """(lo, hi, K, kind): kind 'same' is the accepted x[e:e+K] shape, everything else is a near miss"""
+    r = s.rng
+    K = r.choice([1, 2, 2, 3, 4])
+    v = r.choice(vars_)
+    lo = s.affine(v)
+    q = r.random()
+    if q < 0.45:
+      kind, e2 = 'same', lo
+    elif q < 0.65 and len(vars_) > 1:
+      w = r.choice([x for x in vars_ if x != v])
+      # the same expression over a DIFFERENT loop variable
+      def subst(e):
+        if e[0] == 'loop': return ('loop', w)
+        if e[0] == 'bin': return ('bin', e[1], subst(e[2]), subst(e[3]))
+        return e
+      kind, e2 = 'other-var', subst(lo)
+    elif q < 0.78:
+      kind, e2 = 'other-form', s.affine(v)
+    elif q < 0.86:
+      kind, e2 = 'const-lower', lo; lo = ('lit', r.randrange(0, 4))
+    elif q < 0.93:
+      kind = 'const-upper'
+      s.feats.add('slice:' + kind)
+      return lo, ('lit', r.randrange(4, 9)), K, kind
+    else:
+      kind = 'non-add-upper'
+      s.feats.add('slice:' + kind)
+      return lo, ('bin', r.choice(['Or', 'Mul', 'Sub']), lo, ('lit', K)), K, kind
+    if kind == 'other-form' and e2 == lo: kind = 'same'
+    hi = ('bin', 'Add', e2, ('lit', K)) if r.random() < 0.9 else ('bin', 'Add', ('lit', K), e2)      # K + e is not the recognised shape
+    if hi[2][0] == 'lit' and kind == 'same': kind = 'swapped-add'
+    s.feats.add('slice:' + kind)
+    return lo, hi, K, kind
+
+  def stmt(s, vars_):
+    r = s.rng
+    q = r.random()
+    src = r.choice(s.ins); dst = r.choice(s.outs)
+    if q < 0.35:        # read side
+      lo, hi, K, kind = s.bounds(vars_)
+      tgtw = K if r.random() < 0.85 else r.choice([k for k in (1, 2, 3, 4) if k != K])
+      return ('assign', s.label(), ('lsig', s.small[tgtw], ()), ('slice', ('sig', src, ()), lo, hi), True)
+    if q < 0.6:         # written side
+      lo, hi, K, kind = s.bounds(vars_)
+      w = K if r.random() < 0.85 else K + 1
+      rhs = ('sized', w, r.getrandbits(w)) if r.random() < 0.4 else ('slice', ('sig', src, ()), ('lit', 1), ('lit', 1 + w))
+      s.feats.add('slice-write')
+      return ('assign', s.label(), ('lslice', dst, (), lo, hi), rhs, True)
+    if q < 0.75:        # both sides
+      lo, hi, K, kind = s.bounds(vars_)
+      lo2, hi2, K2, kind2 = s.bounds(vars_)
+      if r.random() < 0.7: hi2 = ('bin', 'Add', hi2[2] if hi2[0] == 'bin' and hi2[1] == 'Add' and hi2[3][0] == 'lit' else lo2, ('lit', K))
+      s.feats.add('slice-both')
+      return ('assign', s.label(), ('lslice', dst, (), lo, hi), ('slice', ('sig', src, ()), lo2, hi2), True)
+    if q < 0.9:         # bit index by loop-variable expressions on both sides
+      s.feats.add('index')
+      return ('assign', s.label(), ('lindex', dst, (), s.affine(r.choice(vars_))), ('index', ('sig', src, ()), s.affine(r.choice(vars_))), True)
+    s.feats.add('loopvar-compare')
+    a, b = r.choice(vars_), r.choice(vars_)
+    return ('assign', s.label(), ('lsig', s.one, ()), ('cmp', r.choice(list(PYCMP)), s.affine(a), s.affine(b)), True)
+
+  def build(s):
+    r = s.rng
+    depth = r.choice([2, 2, 3])
+    s.feats.add(f'depth:{depth}')
+    def loop(level, vars_):
+      lo = r.choice([0, 0, 1]); n = r.choice([2, 3, 4]); step = r.choice([1, 1, 2])
+      nargs = 3 if step > 1 else (2 if lo else r.choice([1, 2]))
+      vs = vars_ + [level]
+      body = []
+      if level + 1 < depth:
+        if r.random() < 0.4: body.append(s.stmt(vs))
+        body.append(loop(level + 1, vs))
+        if r.random() < 0.2: body.append(s.stmt(vs))
+      else:
+        body += [s.stmt(vs) for _ in range(r.choice([1, 1, 2]))]
+      return ('for', level, lo, lo + n * step, step, body, nargs)
+    return [loop(0, [])]
+
+def loop_cases(ctx, n, ninputs):
+  cases = []
+  for i in range(n):
+    g = LoopGen(ctx.rng)
+    ss = g.build()
+    cases.append(process_block(ctx, g.D, ss, False, [], ninputs, f'loops:{i}', ctx.rng, feats=sorted(g.feats)))
+  # fixed near misses: bounds over two different loop variables (must be rejected), and the accepted same-variable forms
+  L = lambda v: ('loop', v); N = lambda z: ('lit', z)
+  add = lambda a, b: ('bin', 'Add', a, b); mul = lambda a, b: ('bin', 'Mul', a, b)
+  for tag, lo, hi in (('i:i+4', L(0), add(L(0), N(4))), ('i:j+4', L(0), add(L(1), N(4))), ('j:i+4', L(1), add(L(0), N(4))),
+                      ('i*2:i*2+4', mul(L(0), N(2)), add(mul(L(0), N(2)), N(4))), ('i*2:j*2+4', mul(L(0), N(2)), add(mul(L(1), N(2)), N(4))),
+                      ('i+1:i+1+4', add(L(0), N(1)), add(add(L(0), N(1)), N(4))), ('i+1:j+1+4', add(L(0), N(1)), add(add(L(1), N(1)), N(4))),
+                      ('i+1:i+2+4', add(L(0), N(1)), add(add(L(0), N(2)), N(4)))):
+    for side in ('read', 'write'):
+      g = LoopGen(ctx.rng)
+      if side == 'read': st = ('assign', 0, ('lsig', g.small[4], ()), ('slice', ('sig', g.ins[0], ()), lo, hi), True)
+      else: st = ('assign', 0, ('lslice', g.outs[0], (), lo, hi), ('slice', ('sig', g.ins[0], ()), N(0), N(4)), True)
+      ss = [('for', 0, 0, 3, 1, [('for', 1, 0, 3, 1, [st], 1)], 1)]
+      cases.append(process_block(ctx, g.D, ss, False, [], ninputs, f'loops:fixed:{side}:{tag}', ctx.rng, feats=('fixed:' + tag,)))
+  check_cases(ctx, cases, 'loops')
+  ctx.extra['loops_fixed_verdicts'] = {c.tag.split(':', 2)[2]: c.tc[0] for c in cases if c.tag.startswith('loops:fixed')}
+  for c in cases[:2]:
+    ctx.sample({'section': 'loops', 'block': c.body[-400:], 'checker': str(c.tc)[:200]})
+
 def random_cases(ctx, n, ninputs):
   cases = []
   for i in range(n):
@@ -1237,6 +1373,7 @@ def run(ctx):
   literal_cases(ctx, 70 if quick else 80)
   directed_cases(ctx)
   constant_cases(ctx, 160 if quick else 1000, 4 if quick else 6)
+  loop_cases(ctx, 70 if quick else 800, 2 if quick else 4)
   random_cases(ctx, 400 if quick else 2500, 6 if quick else 8)
 
 def main(ctx):
@@ -1256,6 +1393,6 @@ def main(ctx):
   except Exception as e:
     ctx.note('correspondence crashed: ' + traceback.format_exc()[-1500:])
     ctx.violation('C10:harness-crash', f'correspondence could not run: {e!r}', {'traceback': traceback.format_exc()}, found_input=False)
-  return ctx.finish(rule='(1) literals 2^k-1,2^k,2^k+1 (k<=70/80) as a Number node, as a loop bound and against a k-bit signal; (2) 30 fixed blocks, one per checker rule / missing check; (2b) 160/1000 blocks over free-variable constants (ints, Bits, bitstructs, lists of them with constant and signal index, fields, signal lists) against signals of equal / different width; '
+  return ctx.finish(rule='(1) literals 2^k-1,2^k,2^k+1 (k<=70/80) as a Number node, as a loop bound and against a k-bit signal; (2) 30 fixed blocks, one per checker rule / missing check; (2c) 70/800 blocks of 2-3 nested for loops whose slices / indices mix loop variables, offsets, scales and constants on the read and the written side (accepted x[e:e+K] forms and the near misses the checker must reject) + 16 fixed ones; (2b) 160/1000 blocks over free-variable constants (ints, Bits, bitstructs, lists of them with constant and signal index, fields, signal lists) against signals of equal / different width; '
                          '(3) random type-directed update blocks (1-4 statements, depth<=3, 2-4 inputs and 2-4 outputs of Bits/bitstruct type, wildness 0-25%) each run on 6-8 random inputs; '
                          'distinct = distinct block texts; all non-trivial (every block is type-checked by the real passes, simulated and probed)')
